@@ -303,7 +303,7 @@ func account(c Case) {
 
 func TestRoundTrip(t *testing.T) {
 	o := &tgen.Opts{NoWideIDs: evid.KnownActive(classWideIDs)}
-	n := 16000
+	n := 12000
 	if evid.Thorough() {
 		o.MaxDepth = 4
 	}
